@@ -477,6 +477,26 @@ CmdNoop(s) ==
   /\ Log("Noop", s, <<>>, "OK")
   /\ UNCHANGED <<rows, uidNext, flg, used, dead, recd, sel, ro, q, idle, ever>>
 
+(* CHECK: exactly like NOOP in a selection *)
+CmdCheck(s) ==
+  /\ Ready(s) /\ sel[s] # None
+  /\ FinishSel(s, <<>>, "exp", <<>>, {}, FALSE)
+  /\ Log("Check", s, <<>>, "OK")
+  /\ UNCHANGED <<rows, uidNext, flg, used, dead, recd, sel, ro, q, idle, ever>>
+
+(* STATUS b (MESSAGES UIDNEXT): handleStatus flushes the session's selection with permitExpunge whichever mailbox is asked *)
+(* for (state.Mailbox hands the handler a Mailbox with a snapshot in either case, so Mailbox.Selected() is always true);   *)
+(* the numbers are those of the session's own view for the selected mailbox and of the database for another one           *)
+CmdStatus(s, b) ==
+  /\ Ready(s)
+  /\ IF sel[s] # None
+     THEN FinishSel(s, <<>>, "exp", <<>>, {}, FALSE)
+     ELSE FinishPlain(s)
+  /\ IF sel[s] = b
+     THEN Log("StatusSel", s, <<b, Len(FlushResult(snap[s], res[s], TRUE, FALSE).snap), uidNext[b]>>, "OK")
+     ELSE Log(IF sel[s] = None THEN "StatusOther" ELSE "StatusSel", s, <<b, Len(rows[b]), uidNext[b]>>, "OK")
+  /\ UNCHANGED <<rows, uidNext, flg, used, dead, recd, sel, ro, q, idle, ever>>
+
 (* FETCH 1:* (UID FLAGS): answers from the snapshot, then flush without expunge *)
 CmdFetch(s) ==
   /\ Ready(s) /\ sel[s] # None /\ Len(snap[s]) > 0
@@ -939,6 +959,8 @@ FreeOld ==
   \/ On("UidExpunge") /\ \E s \in Cmdrs : \E P \in PSets(Len(snap[s])) : CmdExpunge(s, P, TRUE)
   \/ On("Noop") /\ \E s \in Cmdrs : CmdNoop(s)
   \/ On("Fetch") /\ \E s \in Cmdrs : CmdFetch(s)
+  \/ On("Check") /\ \E s \in Cmdrs : CmdCheck(s)
+  \/ On("Status") /\ \E s \in Cmdrs, b \in Boxes : CmdStatus(s, b)
   \/ On("Search") /\ \E s \in Cmdrs, key \in {"ALL", "DELETED"}, byuid \in BOOLEAN : CmdSearch(s, key, byuid)
   \/ On("FetchBody") /\ \E s \in Cmdrs : \E P \in PSets(Len(snap[s])) : CmdFetchBody(s, P)
   \/ On("Copy") /\ \E s \in Cmdrs, d \in Boxes : \E P \in PSets(Len(snap[s])) : CmdCopy(s, P, d)
@@ -1006,13 +1028,14 @@ Scripted ==
 \* Simulation draws the KIND of the next action first (one successor per kind, so kinds are equally likely
 \* whatever the number of argument variants), then one action of that kind - or nothing, if the draw is skipped.
 KindActs == [sel |-> {"Select", "Examine", "Close", "Unselect"}, append |-> {"Append"}, store |-> {"Store"},
-             fetch |-> {"Fetch", "FetchBody", "Refused", "Search"}, expunge |-> {"Expunge", "UidExpunge"}, noop |-> {"Noop"},
+             fetch |-> {"Fetch", "FetchBody", "Refused", "Search"}, expunge |-> {"Expunge", "UidExpunge"}, noop |-> {"Noop", "Check", "StatusSel", "StatusOther"},
              copymove |-> {"Copy", "Move"}, idle |-> {"IdleBegin", "IdleDone"},
              deliver |-> {"Deliver"}, deliver2 |-> {"Deliver"}, deliver3 |-> {"Deliver"},
              conn |-> {"ConnSetBoxes", "ConnSetFlags", "ConnDelete", "ConnUpdateSame", "ConnBad", "ConnCreateDup", "ConnCreateKnown", "ConnIDChanged"},
              conn2 |-> {"ConnCreateWith", "ConnCreateBatch", "ConnCreateIgnore", "ConnUpdateNew", "ConnBump"},
              bye |-> {"Bye"}]
-Kinds == {k \in DOMAIN KindActs : \E a \in KindActs[k] : a \in Acts \/ (a \in {"IdleBegin", "IdleDone"} /\ "Idle" \in Acts)}
+Kinds == {k \in DOMAIN KindActs : \E a \in KindActs[k] : a \in Acts \/ (a \in {"IdleBegin", "IdleDone"} /\ "Idle" \in Acts)
+                                                        \/ (a \in {"StatusSel", "StatusOther"} /\ "Status" \in Acts)}
 DrawKind ==
   /\ pick = None
   /\ \E k \in Kinds : pick' = k
@@ -1131,7 +1154,7 @@ NoExpungeKinds == {"Fetch", "FetchBody", "Store", "Copy", "Refused", "Search"}
 NoExpungeDuringFetchStore ==
   [][last'.act \in NoExpungeKinds =>
        \A s \in Sessions : \A i \in 1..Len(wire'[s]) : wire'[s][i].t # "EXPUNGE"]_vars
-PermitKinds == {"Noop", "Expunge", "UidExpunge", "IdleBegin", "Move"}
+PermitKinds == {"Noop", "Check", "StatusSel", "Expunge", "UidExpunge", "IdleBegin", "Move"}
 RemovalsAnnouncedWhenPermitted ==
   [][(last'.act \in PermitKinds /\ last'.s # None /\ last'.status = "OK") =>
         ~(\E i \in 1..Len(res'[last'.s]) : res'[last'.s][i].k = "Expunge")]_vars
